@@ -8,6 +8,9 @@ import DafRel.Lemmas.SqlTransfer
 
 namespace DafRel
 
+variable {I : NodeInv}
+
+
 theorem joinRows_congr_common (c1 c2 : Cols) (p : Pred) (L R : List Row) (h : ∀ u, u ∈ c1 ↔ u ∈ c2) :
     joinRows c1 p L R = joinRows c2 p L R := by
   unfold joinRows
@@ -26,9 +29,9 @@ theorem keys_inter_congr (a a' b b' : Cols) (ha : ∀ u, u ∈ a ↔ u ∈ a') (
 
 /-- `sql.Engine.append_binary(Chain, lhs, rhs)` on two Good trees with the same columns. -/
 theorem appendBinarySql_chain_sound (σ : Leaves) (st : Store) (fuel : Nat) (l r : Rel)
-    (gl : Good σ l) (gr : Good σ r) (hcols : ∀ t, t ∈ l.columns ↔ t ∈ r.columns)
+    (gl : Good I σ l) (gr : Good I σ r) (hcols : ∀ t, t ∈ l.columns ↔ t ∈ r.columns)
     (res : BRes) (h : appendBinarySql st fuel .chain l r = .ok res) :
-    ∃ T, res = .new T ∧ Good σ T ∧ SelOK σ T ∧ sem σ T = sem σ l ++ sem σ r ∧
+    ∃ T, res = .new T ∧ Good I σ T ∧ SelOK σ T ∧ sem σ T = sem σ l ++ sem σ r ∧
       (∀ c, c ∈ T.columns ↔ c ∈ l.columns) ∧ T.engine = l.engine := by
   cases fuel with
   | zero => rw [appendBinarySql] at h; cases h
@@ -64,8 +67,8 @@ theorem appendBinarySql_chain_sound (σ : Leaves) (st : Store) (fuel : Nat) (l r
 
 /-- `lhs.chain(rhs)` inside one SQL engine. -/
 theorem binaryApply_chain_sql_sound (σ : Leaves) (st : Store) (fuel : Nat) (l r : Rel)
-    (gl : Good σ l) (gr : Good σ r) (res : BRes) (h : binaryApply st fuel .chain l r = .ok res) :
-    ∃ T, res = .new T ∧ Good σ T ∧ SelOK σ T ∧ sem σ T = sem σ l ++ sem σ r ∧
+    (gl : Good I σ l) (gr : Good I σ r) (res : BRes) (h : binaryApply st fuel .chain l r = .ok res) :
+    ∃ T, res = .new T ∧ Good I σ T ∧ SelOK σ T ∧ sem σ T = sem σ l ++ sem σ r ∧
       (∀ c, c ∈ T.columns ↔ c ∈ l.columns) ∧ T.engine = l.engine := by
   cases fuel with
   | zero => rw [binaryApply] at h; cases h
@@ -90,8 +93,9 @@ theorem binaryApply_chain_sql_sound (σ : Leaves) (st : Store) (fuel : Nat) (l r
 
 /-- `relation.materialized(name)` inside a SQL engine, on a Good tree. -/
 theorem materialize_good (σ : Leaves) (st : Store) (fuel : Nat) (t : Rel) (name : String) (res : Res)
-    (gt : Good σ t) (h : materialize st fuel t name = .ok res) :
-    Good σ (res.get t) ∧ sem σ (res.get t) = sem σ t ∧ (∀ c, c ∈ (res.get t).columns ↔ c ∈ t.columns) ∧
+    (gt : Good I σ t) (hnew : ∀ x : Rel, x.isAtom = true → x.oid = 0 → I.atom x)
+    (h : materialize st fuel t name = .ok res) :
+    Good I σ (res.get t) ∧ sem σ (res.get t) = sem σ t ∧ (∀ c, c ∈ (res.get t).columns ↔ c ∈ t.columns) ∧
       (res.get t).engine = t.engine := by
   have hk := gt.sql
   cases fuel with
@@ -114,35 +118,37 @@ theorem materialize_good (σ : Leaves) (st : Store) (fuel : Nat) (t : Rel) (name
           | ok r =>
             simp only [ha] at h
             injection h with h; subst h
-            have gM : Good σ (Rel.mat 0 name (ct.get t)) :=
+            have gM : Good I σ (Rel.mat 0 name (ct.get t)) :=
               Good.atom _ rfl C.ok.wf C.ok.truthful (by show (ct.get t).engine.kind = _; rw [C.engine]; exact hk)
+                (hnew _ rfl rfl)
             obtain ⟨gW, W⟩ := good_wrap σ _ r gM rfl rfl ha
-            show Good σ r ∧ sem σ r = _ ∧ (∀ c, c ∈ r.columns ↔ _) ∧ r.engine = _
+            show Good I σ r ∧ sem σ r = _ ∧ (∀ c, c ∈ r.columns ↔ _) ∧ r.engine = _
             exact ⟨gW, by rw [W.sem_eq]; exact C.sem_eq, fun c => (W.cols c).trans (C.cols c),
               by rw [W.engine]; exact C.engine⟩
 
 /-- What is true of the tree built for a SQL history. -/
-structure SqlBuilt (σ : Leaves) (eng : Engine) (b : SqlBuild) (r : Rel) : Prop where
-  good : Good σ r
+structure SqlBuilt (I : NodeInv) (σ : Leaves) (eng : Engine) (b : SqlBuild) (r : Rel) : Prop where
+  good : Good I σ r
   sem_eq : sem σ r = b.direct σ
   cols : ∀ c, c ∈ r.columns ↔ c ∈ b.cols
   engine : r.engine = eng
 
 /-- **Every construction history inside one SQL engine builds a tree with the rows of its direct
 evaluation.** -/
-theorem sql_build_invariant (σ : Leaves) (st : Store) (eng : Engine) (hk : eng.kind = .sql) :
-    (b : SqlBuild) → (r : Rel) → b.ok σ → b.tree st eng = .ok r → SqlBuilt σ eng b r
-  | .leaf oid cols name mn mx msgs, r, hok, h => by
+theorem sql_build_invariantI (σ : Leaves) (st : Store) (eng : Engine) (hk : eng.kind = .sql)
+    (hnew : ∀ x : Rel, x.isAtom = true → x.oid = 0 → I.atom x) :
+    (b : SqlBuild) → (r : Rel) → b.ok σ → b.LeavesOK I eng → b.tree st eng = .ok r → SqlBuilt I σ eng b r
+  | .leaf oid cols name mn mx msgs, r, hok, hl, h => by
     simp only [SqlBuild.tree] at h
     injection h with h; subst h
-    exact ⟨Good.atom _ rfl trivial hok hk, rfl, fun _ => Iff.rfl, rfl⟩
-  | .op o b, r, hok, h => by
+    exact ⟨Good.atom _ rfl trivial hok hk hl, rfl, fun _ => Iff.rfl, rfl⟩
+  | .op o b, r, hok, hl, h => by
     simp only [SqlBuild.tree] at h
     cases hb : SqlBuild.tree st eng b with
     | error e => simp [hb] at h
     | ok t =>
       simp only [hb] at h
-      have ih := sql_build_invariant σ st eng hk b t hok hb
+      have ih := sql_build_invariantI σ st eng hk hnew b t hok hl hb
       cases ha : applyOp st defaultFuel (.u o) t {} with
       | error e => simp [ha] at h
       | ok res =>
@@ -155,7 +161,7 @@ theorem sql_build_invariant (σ : Leaves) (st : Store) (eng : Engine) (hk : eng.
         · intro c
           rw [F.cols c]
           exact UOp.appliedColumns_congr o _ _ ih.cols c
-  | .chain a b, r, hok, h => by
+  | .chain a b, r, hok, hl, h => by
     simp only [SqlBuild.tree] at h
     cases ha : SqlBuild.tree st eng a with
     | error e => simp [ha] at h
@@ -164,8 +170,8 @@ theorem sql_build_invariant (σ : Leaves) (st : Store) (eng : Engine) (hk : eng.
       | error e => simp [ha, hb] at h
       | ok tb =>
         simp only [ha, hb] at h
-        have iha := sql_build_invariant σ st eng hk a ta hok.1 ha
-        have ihb := sql_build_invariant σ st eng hk b tb hok.2 hb
+        have iha := sql_build_invariantI σ st eng hk hnew a ta hok.1 hl.1 ha
+        have ihb := sql_build_invariantI σ st eng hk hnew b tb hok.2 hl.2 hb
         cases hc : binaryApply st defaultFuel .chain ta tb with
         | error e => simp [hc] at h
         | ok res =>
@@ -176,7 +182,7 @@ theorem sql_build_invariant (σ : Leaves) (st : Store) (eng : Engine) (hk : eng.
           subst hT
           exact ⟨gT, by rw [show (BRes.new T).get ta tb = T from rfl, semT, iha.sem_eq, ihb.sem_eq]; rfl,
             fun c => (colT c).trans (iha.cols c), by rw [show (BRes.new T).get ta tb = T from rfl, engT]; exact iha.engine⟩
-  | .join a b pred, r, hok, h => by
+  | .join a b pred, r, hok, hl, h => by
     simp only [SqlBuild.tree] at h
     cases ha : SqlBuild.tree st eng a with
     | error e => simp [ha] at h
@@ -185,8 +191,8 @@ theorem sql_build_invariant (σ : Leaves) (st : Store) (eng : Engine) (hk : eng.
       | error e => simp [ha, hb] at h
       | ok tb =>
         simp only [ha, hb] at h
-        have iha := sql_build_invariant σ st eng hk a ta hok.1 ha
-        have ihb := sql_build_invariant σ st eng hk b tb hok.2 hb
+        have iha := sql_build_invariantI σ st eng hk hnew a ta hok.1 hl.1 ha
+        have ihb := sql_build_invariantI σ st eng hk hnew b tb hok.2 hl.2 hb
         cases hj : Rel.joinWith st ta tb pred true false with
         | error e => simp [hj] at h
         | ok res =>
@@ -215,19 +221,31 @@ theorem sql_build_invariant (σ : Leaves) (st : Store) (eng : Engine) (hk : eng.
             rw [colT c]
             simp only [PJoin.lhs, PJoin.rhs, Bool.false_eq_true, if_false, SqlBuild.cols, Cols.mem_union,
               iha.cols c, ihb.cols c]
-  | .mat name b, r, hok, h => by
+  | .mat name b, r, hok, hl, h => by
     simp only [SqlBuild.tree] at h
     cases hb : SqlBuild.tree st eng b with
     | error e => simp [hb] at h
     | ok t =>
       simp only [hb] at h
-      have ih := sql_build_invariant σ st eng hk b t hok hb
+      have ih := sql_build_invariantI σ st eng hk hnew b t hok hl hb
       cases hm : materialize st defaultFuel t name with
       | error e => simp [hm] at h
       | ok res =>
         simp only [hm] at h
         injection h with h; subst h
-        obtain ⟨g, s1, s2, s3⟩ := materialize_good σ st defaultFuel t name res ih.good hm
+        obtain ⟨g, s1, s2, s3⟩ := materialize_good σ st defaultFuel t name res ih.good hnew hm
         exact ⟨g, by rw [s1]; exact ih.sem_eq, fun c => (s2 c).trans (ih.cols c), by rw [s3]; exact ih.engine⟩
+
+theorem leavesOK_triv (eng : Engine) : (b : SqlBuild) → b.LeavesOK NodeInv.triv eng
+  | .leaf .. => trivial
+  | .op _ b => leavesOK_triv eng b
+  | .chain a b => ⟨leavesOK_triv eng a, leavesOK_triv eng b⟩
+  | .join a b _ => ⟨leavesOK_triv eng a, leavesOK_triv eng b⟩
+  | .mat _ b => leavesOK_triv eng b
+
+/-- The same with no extra invariant. -/
+theorem sql_build_invariant (σ : Leaves) (st : Store) (eng : Engine) (hk : eng.kind = .sql)
+    (b : SqlBuild) (r : Rel) (hok : b.ok σ) (h : b.tree st eng = .ok r) : SqlBuilt NodeInv.triv σ eng b r :=
+  sql_build_invariantI σ st eng hk (fun _ _ _ => trivial) b r hok (leavesOK_triv eng b) h
 
 end DafRel
